@@ -18,3 +18,4 @@ import Indi.Properties.Spellings
 #print axioms Indi.Xml.admissible_spelling
 #print axioms Indi.Xml.parseDoc_spell_prefix
 #print axioms Indi.Xml.spellElem_ending
+#print axioms Indi.Xml.C02_spelled_stream
